@@ -62,6 +62,15 @@ func nopanicConfigs(r *rng, n int) []proxyCfg {
 		proxyCfg{AuthLoggingFormat: "{{.Nope}} {{.Message}}", InjectRequest: defaultInject(), Htpasswd: map[string]string{"bob": "pw"}, SkipJwtBearer: true},
 		proxyCfg{RequestLoggingFormat: "{{.Client}} {{.Host}} {{.Protocol}} {{.RequestDuration}} {{.RequestID}} {{.RequestMethod}} {{.RequestURI}} {{.ResponseSize}} {{.StatusCode}} {{.Timestamp}} {{.Upstream}} {{.UserAgent}} {{.Username}}",
 			AuthLoggingFormat: "{{.Client}} {{.Host}} {{.Protocol}} {{.RequestID}} {{.RequestMethod}} {{.Timestamp}} {{.UserAgent}} {{.Username}} {{.Status}} {{.Message}}", InjectRequest: defaultInject(), Redis: true})
+	// upstream options away from their defaults: WebSocket proxying off, Host header not passed, per-upstream timeouts; file and static
+	// upstreams next to proxied ones — with requests that ASK for a protocol upgrade
+	{
+		off, on := false, true
+		tmo := options.Duration(2 * time.Second)
+		out = append(out, proxyCfg{InjectRequest: defaultInject(), SkipAuthRoutes: []string{"^/skip/"}, Htpasswd: map[string]string{"bob": "pw"},
+			Upstreams: []options.Upstream{{ID: "nows", Path: "/", URI: "U:root", ProxyWebSockets: &off, PassHostHeader: &off, Timeout: &tmo},
+				{ID: "ws", Path: "/ws/", URI: "U:root", ProxyWebSockets: &on}, {ID: "skip", Path: "/skip/", URI: "U:root", ProxyWebSockets: &off}}})
+	}
 	// static upstreams with response codes at and beyond the edge of what net/http can write (100..999): validation rejects the
 	// impossible ones ("cfg:rejected", regression of a4d8b51); every accepted one answers without a panic
 	for _, code := range []int{99, 100, 199, 599, 999, 1000, 0, -1} {
@@ -128,7 +137,7 @@ var weirdFwd = []string{"", ", 10.0.0.1", " ,", "[", "[]", "[::1]", "[::1", "]",
 func init() {
 	registerSuite("nopanic", func(c *suiteCtx) {
 		u := defaultUser()
-		cfgs := nopanicConfigs(c.rng.fork(), 54+10*c.scale)
+		cfgs := nopanicConfigs(c.rng.fork(), 55+10*c.scale)
 		perCfg := 700
 		if c.scale > 1 {
 			perCfg = 2500
@@ -193,6 +202,15 @@ func init() {
 				{Target: "/oauth2/sign_in", Method: "POST", Body: "username=bob&password=pw&rd=/x", Cookie: old}, {Target: "/oauth2/sign_in", Method: "POST", Body: "username=bob&password=wrong&rd=/x", Cookie: formCookie},
 				{Target: "/oauth2/sign_in", Method: "POST", Body: "username=bob&password=pw&rd=/x", Cookie: tamperMid(sessionCookie)},
 				{Target: "/skip/x", Cookie: sessionCookie}, {Target: "/skip/x"}, {Target: "/app/x", Method: "OPTIONS"}, {Target: "/oauth2/start?rd=/x"},
+				// protocol upgrades asked of every kind of route (the fake upstream answers an ordinary 200: the point is the proxy's own handling)
+				{Target: "/app/socket", Cookie: sessionCookie, Header: http.Header{"Connection": {"Upgrade"}, "Upgrade": {"websocket"}, "Sec-Websocket-Version": {"13"}, "Sec-Websocket-Key": {"dGhlIHNhbXBsZSBub25jZQ=="}}},
+				{Target: "/skip/socket", Header: http.Header{"Connection": {"keep-alive, Upgrade"}, "Upgrade": {"WebSocket"}}}, {Target: "/ws/socket", Cookie: sessionCookie, Header: http.Header{"Connection": {"upgrade"}, "Upgrade": {"h2c"}}},
+				{Target: "/oauth2/auth", Cookie: sessionCookie, Header: http.Header{"Connection": {"Upgrade"}, "Upgrade": {"websocket"}}},
+				// cookies whose NAMES look like split parts with absurd indices (next to a real session, on cookie-writing endpoints)
+				{Target: "/oauth2/sign_out", Cookie: sessionCookie + "; t_" + strings.Repeat("0", 300) + "=x; " + e.opts.Cookie.Name + "_" + strings.Repeat("9", 300) + "=y"},
+				{Target: "/oauth2/sign_in", Cookie: "t_" + strings.Repeat("1", 256) + "=x; _" + strings.Repeat("7", 255) + "=y; " + e.opts.Cookie.Name + "_01=z; " + e.opts.Cookie.Name + "_=w"},
+				{Target: cbTarget, Cookie: csrfCookie + "; " + e.opts.Cookie.Name + "_" + strings.Repeat("0", 257) + "=q"},
+				{Target: "/app/x", Cookie: e.opts.Cookie.Name + "_" + strings.Repeat("3", 400) + "=r; " + strings.Repeat("n", 300) + "_" + strings.Repeat("4", 300) + "=s"},
 			}
 			for _, s := range seeds {
 				e.do(s)
